@@ -310,6 +310,11 @@ enum Ctx {
     Multi,
 }
 fn scan_comments(src: &str) -> Vec<String> {
+    scan_comments2(src).0
+}
+/// (comments, some comment lies inside an interpolation hole)
+fn scan_comments2(src: &str) -> (Vec<String>, bool) {
+    let mut in_hole = false;
     let cs: Vec<char> = src.chars().collect();
     let mut out = vec![];
     let mut stack = vec![Ctx::Code(0)];
@@ -326,6 +331,9 @@ fn scan_comments(src: &str) -> Vec<String> {
                     }
                     let text: String = cs[i..j].iter().collect();
                     out.push(text.trim_end().to_string());
+                    if !top_level(&stack) {
+                        in_hole = true;
+                    }
                     i = j;
                     continue;
                 }
@@ -380,7 +388,154 @@ fn scan_comments(src: &str) -> Vec<String> {
             }
         }
     }
-    out
+    (out, in_hole)
+}
+
+
+// ------------------------------------------------------------------------------------------
+// Input signatures of the known findings F15..F19 (computed on the *input* AST / source only).
+// ------------------------------------------------------------------------------------------
+#[derive(Default)]
+struct Sig {
+    multi_blank2: bool, // F15: a """ string with two adjacent blank content lines
+    multi_uspace: bool, // F18: a """ string line ending in a Unicode space other than ' ', tab, CR
+    hole_string: bool,  // F16: a string literal / string pattern nested inside an interpolation hole
+    tail_block: bool,   // F19: a non-final chain term that is a block ending in a tail call
+}
+fn unprotected_space(c: char) -> bool {
+    c.is_whitespace() && c != ' ' && c != '\t' && c != '\r' && c != '\n'
+}
+fn sig_multi_lines(lines: &[String], sig: &mut Sig) {
+    // `lines`: the content lines as the formatter renders them (holes as a non-blank placeholder)
+    let blank = |l: &String| l.chars().all(unprotected_space);
+    for w in lines.windows(2) {
+        if blank(&w[0]) && blank(&w[1]) {
+            sig.multi_blank2 = true;
+        }
+    }
+    for l in lines {
+        if l.chars().last().is_some_and(unprotected_space) {
+            sig.multi_uspace = true;
+        }
+    }
+}
+fn sig_multi_text(bytes: &[u8], sig: &mut Sig) {
+    let text = String::from_utf8_lossy(bytes).to_string();
+    let lines: Vec<String> = text.split('\n').map(|s| s.to_string()).collect();
+    sig_multi_lines(&lines, sig);
+}
+fn ends_in_tail(t: &Term) -> bool {
+    match t {
+        Term::Access(Access {
+            source: Some(AccessSource::TailCall(_) | AccessSource::TailCallRipple),
+            ..
+        }) => true,
+        Term::Block(e) if e.branches.len() == 1 && e.branches[0].consequence.is_none() => e.branches[0]
+            .condition
+            .chains
+            .last()
+            .and_then(|c| c.terms.last())
+            .is_some_and(ends_in_tail),
+        _ => false,
+    }
+}
+fn sig_match(m: &Match, in_hole: bool, sig: &mut Sig) {
+    match m {
+        Match::String(style, b) => {
+            if in_hole {
+                sig.hole_string = true;
+            }
+            if *style == StringStyle::Multi {
+                sig_multi_text(b, sig);
+            }
+        }
+        Match::Tuple(t) => t.fields.iter().for_each(|f| sig_match(&f.pattern, in_hole, sig)),
+        Match::Partial(p) => p.fields.iter().for_each(|f| {
+            if let Some(m) = &f.pattern {
+                sig_match(m, in_hole, sig)
+            }
+        }),
+        Match::Or(ms) => ms.iter().for_each(|m| sig_match(m, in_hole, sig)),
+        _ => {}
+    }
+}
+fn sig_chain(c: &Chain, in_hole: bool, sig: &mut Sig) {
+    if let Some(m) = &c.match_pattern {
+        sig_match(m, in_hole, sig);
+    }
+    let n = c.terms.len();
+    for (i, t) in c.terms.iter().enumerate() {
+        if i + 1 < n && matches!(t, Term::Block(_)) && ends_in_tail(t) {
+            sig.tail_block = true;
+        }
+        sig_term(t, in_hole, sig);
+    }
+}
+fn sig_expression(e: &Expression, in_hole: bool, sig: &mut Sig) {
+    for b in &e.branches {
+        b.condition.chains.iter().for_each(|c| sig_chain(c, in_hole, sig));
+        if let Some(k) = &b.consequence {
+            k.chains.iter().for_each(|c| sig_chain(c, in_hole, sig));
+        }
+    }
+}
+fn sig_term(t: &Term, in_hole: bool, sig: &mut Sig) {
+    match t {
+        Term::String(style, segs) => {
+            if in_hole {
+                sig.hole_string = true;
+            }
+            if *style == StringStyle::Multi {
+                // rebuild the rendered content lines: text split on '\n', holes inline
+                let mut lines = vec![String::new()];
+                for seg in segs {
+                    match seg {
+                        StrSegment::Text(b) => {
+                            let text = String::from_utf8_lossy(b).to_string();
+                            let mut parts = text.split('\n');
+                            if let Some(first) = parts.next() {
+                                lines.last_mut().unwrap().push_str(first);
+                            }
+                            for p in parts {
+                                lines.push(p.to_string());
+                            }
+                        }
+                        StrSegment::Hole(_) => lines.last_mut().unwrap().push_str("{}"),
+                    }
+                }
+                sig_multi_lines(&lines, sig);
+            }
+            for seg in segs {
+                if let StrSegment::Hole(e) = seg {
+                    sig_expression(e, true, sig);
+                }
+            }
+        }
+        Term::Match(m) => sig_match(m, in_hole, sig),
+        Term::Tuple(t) => t.fields.iter().for_each(|f| {
+            if let FieldValue::Chain(c) = &f.value {
+                sig_chain(c, in_hole, sig)
+            }
+        }),
+        Term::Block(e) => sig_expression(e, in_hole, sig),
+        Term::Function(f) => {
+            if let Some(b) = &f.body {
+                sig_expression(b, in_hole, sig)
+            }
+        }
+        Term::Spawn(inner, _) => sig_term(inner, in_hole, sig),
+        Term::Select(Some(cs), _) => cs.iter().for_each(|c| sig_chain(c, in_hole, sig)),
+        _ => {}
+    }
+}
+fn signature(p: &Program) -> Sig {
+    let mut sig = Sig::default();
+    for s in &p.statements {
+        if let Statement::Expression(seq) = s {
+            seq.chains.iter().for_each(|c| sig_chain(c, false, &mut sig));
+        }
+    }
+    sig
 }
 
 // ------------------------------------------------------------------------------------------
@@ -418,6 +573,7 @@ fn e2e(src: &str, with_out: bool) -> String {
     };
     let mut feats = BTreeMap::new();
     count_heads(&d_program(&ast), &mut feats);
+    let sig = signature(&ast);
     let (a1, s1) = (ast.clone(), src.to_string());
     let out1 = match guarded(move || format_program(&a1, &s1)) {
         Err(loc) => return format!("(panic {} format)", quote(&loc)),
@@ -462,7 +618,24 @@ fn e2e(src: &str, with_out: bool) -> String {
             }
         }
     }
-    let c_in = scan_comments(src);
+    let (c_in, comment_in_hole) = scan_comments2(src);
+    let mut sigs = vec![];
+    if sig.multi_blank2 {
+        sigs.push("multi-blank2");
+    }
+    if sig.multi_uspace {
+        sigs.push("multi-uspace");
+    }
+    if sig.hole_string {
+        sigs.push("hole-string");
+    }
+    if sig.tail_block {
+        sigs.push("tail-block");
+    }
+    if comment_in_hole {
+        sigs.push("hole-comment");
+    }
+    fields.push(format!("(sig {})", sigs.join(" ")));
     let c_out = scan_comments(&out1);
     fields.push(format!("(comments {})", if c_in == c_out { "ok" } else { "diff" }));
     fields.push(format!("(ncomments {})", c_in.len()));
@@ -497,13 +670,14 @@ fn norm(src: &str, m: usize, r: usize) -> String {
     };
     let din = d_program(&ast).to_string();
     let a1 = ast.clone();
-    let c = match guarded(move || canonical(a1)) {
+    let cp = match guarded(move || canonical(a1)) {
         Err(loc) => return format!("(panic {} normalize-c)", quote(&loc)),
-        Ok(p) => d_program(&p).to_string(),
+        Ok(p) => p,
     };
-    let f = match guarded(move || {
+    let c = d_program(&cp).to_string();
+    let fnorm = move |p: Program| {
         normalize_blocks(
-            ast,
+            p,
             &Options {
                 keep: &|chain: &Chain| match chain.span.get() {
                     Some(sp) => m != 0 && sp.offset % m == r,
@@ -513,11 +687,30 @@ fn norm(src: &str, m: usize, r: usize) -> String {
                 group_consequences: true,
             },
         )
-    }) {
-        Err(loc) => return format!("(panic {} normalize-f)", quote(&loc)),
-        Ok(p) => d_program(&p).to_string(),
     };
-    format!("{}\t{}\t{}", din, c, f)
+    let fp = match guarded(move || fnorm(ast)) {
+        Err(loc) => return format!("(panic {} normalize-f)", quote(&loc)),
+        Ok(p) => p,
+    };
+    let f = d_program(&fp).to_string();
+    // the theorems, evaluated on the real function (real-vs-real)
+    let (cp2, fp2, fp3) = (cp.clone(), fp.clone(), fp.clone());
+    let props = match guarded(move || {
+        let cc = canonical(cp2.clone()) == cp2;
+        let ff = fnorm(fp2.clone()) == fp2;
+        let cf = canonical(fp3) == cp;
+        // `==` ignores spans (Spanned: always equal), so compare the span-carrying dumps too
+        format!(
+            "(props (cc {}) (ff {}) (cf {}))",
+            if cc { "ok" } else { "diff" },
+            if ff { "ok" } else { "diff" },
+            if cf { "ok" } else { "diff" }
+        )
+    }) {
+        Err(loc) => return format!("(panic {} normalize-props)", quote(&loc)),
+        Ok(s) => s,
+    };
+    format!("{}\t{}\t{}\t{}", din, c, f, props)
 }
 
 // ------------------------------------------------------------------------------------------
